@@ -2,9 +2,9 @@
 use crate::input::Item;
 use crate::ir::*;
 
-pub const N_KINDS: usize = 13;
+pub const N_KINDS: usize = 15;
 pub const KIND_NAMES: [&str; N_KINDS] =
-    ["required", "option", "default_fn", "multiple", "skip", "renamed", "with_map", "nested", "enum", "flatten", "map", "bool", "and_then"];
+    ["required", "option", "default_fn", "multiple", "skip", "renamed", "with_map", "nested", "enum", "flatten", "map", "bool", "and_then", "skip_false", "with_option"];
 const SLOT_NAMES: [&str; 3] = ["alpha_beta", "gamma_x", "delta_y9"];
 
 fn child_struct(pool: &mut Vec<Decl>, flat: bool) -> usize {
@@ -51,6 +51,11 @@ pub fn kind_field(kind: usize, slot: usize, pool: &mut Vec<Decl>) -> Field {
         10 => f.ty = Ty::MapU32,
         11 => f.ty = Ty::Bool,
         12 => f.tr = Tr::AndThen,
+        13 => f.skip_false = true,
+        14 => {
+            f.ty = Ty::OptU32;
+            f.with = if slot % 2 == 0 { With::Closure } else { With::Path };
+        }
         _ => panic!("kind"),
     }
     f
@@ -313,8 +318,8 @@ pub fn root_alphabet(prog: &Program) -> Vec<Item> {
 
 // ------------------------------------------------------------------ enum corpus (C09)
 
-pub const N_VKINDS: usize = 10;
-pub const VKIND_NAMES: [&str; N_VKINDS] = ["unit", "unit_renamed", "unit_skipped", "unit_word", "newtype_u32", "newtype_opt", "newtype_struct", "struct", "struct_skipped", "unit_word_false"];
+pub const N_VKINDS: usize = 11;
+pub const VKIND_NAMES: [&str; N_VKINDS] = ["unit", "unit_renamed", "unit_skipped", "unit_word", "newtype_u32", "newtype_opt", "newtype_struct", "struct", "struct_skipped", "unit_word_false", "struct_flatten"];
 const VSLOT_NAMES: [&str; 3] = ["AlphaBeta", "Gamma", "DeltaX9"];
 
 fn kind_variant(kind: usize, slot: usize, pool: &mut Vec<Decl>) -> Variant {
@@ -335,6 +340,11 @@ fn kind_variant(kind: usize, slot: usize, pool: &mut Vec<Decl>) -> Variant {
             v.skip = true;
         }
         9 => v.word = Some(false),
+        10 => {
+            let mut rest = Field::new("rest", Ty::Struct(child_struct(pool, true)));
+            rest.flatten = true;
+            v.body = VBody::Struct(vec![Field::new("x", Ty::U32), rest]);
+        }
         _ => panic!("vkind"),
     }
     v
@@ -439,6 +449,8 @@ pub fn enum_list_alphabet(prog: &Program) -> Vec<Item> {
         out.push(Item::list(n, vec![Item::nv("x", "1")]));
         out.push(Item::list(n, vec![Item::nv("X", "1")]));
         out.push(Item::list(n, vec![Item::nv("x", "1"), Item::nv("zz", "1")]));
+        out.push(Item::list(n, vec![Item::nv("x", "1"), Item::nv("p_q", "2")]));
+        out.push(Item::list(n, vec![Item::nv("p_q", "2"), Item::nv("x", "1"), Item::nv("r", "3")]));
         out.push(Item::list(n, vec![]));
     }
     out.push(Item::lit("\"lit\""));
